@@ -84,9 +84,21 @@ func checkPat(c templ.Component, what string, pat ...seg) {
 	symAssert(matchFrom(got, 0, pat), what+": rendered bytes equal the denotation (optional spaces only where the statement allows)")
 }
 
+// verifFiller: a run of plain letters whose length is chosen around the size of the render
+// buffer (runtime.Buffer wraps a bufio.Writer of the default 4096 bytes), so that a value may be
+// shorter than, exactly as long as, or longer than what the buffer holds.
+func verifFiller() string {
+	n := []int{0, 4094, 4096, 4097, 9000}[symChoose(5)]
+	b := make([]byte, n)
+	for i := range b {
+		b[i] = 'x'
+	}
+	return string(b)
+}
+
 func VerifC02Cond() {
 	a, b := symBool("a"), symBool("b")
-	s := symString("s", symParam("N"))
+	s := verifFiller() + symString("s", symParam("N"))
 	want := "<div>"
 	switch {
 	case a:
@@ -130,6 +142,8 @@ func VerifC02Switch() {
 		want += "<a>A</a>"
 	case "b", "c":
 		want += "<b>BC</b>"
+	case "d", "e":
+		// cases without content render nothing (and do not fall into default)
 	default:
 		want += "<c>" + esc(s) + "</c>"
 	}
@@ -146,7 +160,7 @@ func VerifC02Switch() {
 }
 
 func VerifC02Attrs() {
-	s := symString("s", symParam("N"))
+	s := verifFiller() + symString("s", symParam("N"))
 	c, d, e := symBool("c"), symBool("d"), symBool("e")
 	k1, k2 := symBool("k1"), symBool("k2")
 	m := templ.Attributes{"data-k": s, "kv": templ.KV(k1, k2), "on": e}
